@@ -102,6 +102,7 @@ func genDispatch(c *ctx) string {
 	b.WriteString("def dirArgWrapperAccepted : Bool := " + dirArgTypeTest(c) + "\n")
 	b.WriteString("def descRaw : Bool := " + descForm(c) + "\n")
 	b.WriteString("def assureOnce : Bool := " + assureSchemaForm(c) + "\n")
+	b.WriteString("def shallowRollback : Bool := " + rollbackDepthForm(c) + "\n")
 	b.WriteString("def inputExtendMapOrder : Bool := " + inputExtendForm(c) + "\n")
 	tod, ter := toolForms(c)
 	b.WriteString("def toolOmitsDirectives : Bool := " + tod + "\n")
@@ -311,12 +312,13 @@ func schemaRollbackForm(c *ctx) string {
 	src = regexp.MustCompile(`\s+`).ReplaceAllString(src, " ")
 	const tables = `if err != nil { root.types = origTypes root.dirs = origDirs }`
 	const all = `if err != nil { root.types = origTypes root.dirs = origDirs root.schema = origSchema }`
+	const allU = `if err != nil { unextend() root.types = origTypes root.dirs = origDirs root.schema = origSchema }`
 	saved := strings.Contains(src, "origSchema := root.schema") &&
 		strings.Index(src, "origSchema := root.schema") < strings.Index(src, "parseSDL(root, r)")
 	switch {
 	case strings.Contains(src, tables) && !strings.Contains(src, "origSchema"):
 		return "true"
-	case strings.Contains(src, all) && saved && strings.Count(src, "origSchema") == 2:
+	case (strings.Contains(src, all) || strings.Contains(src, allU)) && saved && strings.Count(src, "origSchema") == 2:
 		return "false"
 	}
 	return unknown("ParseReader rollback", c.pos(fd))
@@ -552,7 +554,8 @@ func assureSchemaForm(c *ctx) string {
 		!strings.Contains(ats, "assureSchema") && others == 0:
 		return "true"
 	case body == every && others == 0 &&
-		strings.Contains(prs, "if err == nil { err = root.validate() } if err != nil { root.types = origTypes root.dirs = origDirs root.schema = origSchema } else { root.assureSchema() } return err") &&
+		(strings.Contains(prs, "if err == nil { err = root.validate() } if err != nil { root.types = origTypes root.dirs = origDirs root.schema = origSchema } else { root.assureSchema() } return err") ||
+			strings.Contains(prs, "if err == nil { err = root.validate() } if err != nil { unextend() root.types = origTypes root.dirs = origDirs root.schema = origSchema } else { root.assureSchema() } return err")) &&
 		strings.Count(prs, "assureSchema") == 1 &&
 		strings.Contains(ats, "if err == nil { err = root.validate() } if err != nil { root.types = origTypes root.dirs = origDirs } else { root.assureSchema() } return") &&
 		strings.Count(ats, "assureSchema") == 1:
@@ -580,4 +583,75 @@ func inputExtendForm(c *ctx) string {
 		return "false"
 	}
 	return unknown("Input.Extend body", c.pos(fd))
+}
+
+// rollbackDepthForm: does a failed load take back what its `extend` blocks added to type objects that existed
+// before (the tables are copies, the objects are shared: D30)?  Repaired form: addExtends records an undo for
+// every type right before it calls Extend on it, ParseReader runs the undos on any error, and the undo of each
+// kind restores exactly what that kind's Extend appends to — all bodies are matched whole, so a kind whose
+// Extend starts touching something its undo does not restore is an unknown shape.
+func rollbackDepthForm(c *ctx) string {
+	norm := func(n ast.Node) string {
+		t := regexp.MustCompile(`(?m)//.*$`).ReplaceAllString(c.src(n), "")
+		return regexp.MustCompile(`\s+`).ReplaceAllString(t, " ")
+	}
+	pr, ae := c.funcs["Root.ParseReader"], c.funcs["Root.addExtends"]
+	if pr == nil || ae == nil {
+		return unknown("ParseReader/addExtends", "root.go")
+	}
+	prs, aes := norm(pr.Body), norm(ae.Body)
+	anyUndo := false
+	for name := range c.funcs {
+		if strings.HasSuffix(name, ".unextend") || strings.HasSuffix(name, ".truncate") {
+			anyUndo = true
+		}
+	}
+	if !anyUndo && !strings.Contains(prs, "unextend") && !strings.Contains(aes, "undo") {
+		if strings.Contains(prs, "if err == nil { err = root.addExtends(extends...) }") {
+			return "true"
+		}
+		return unknown("ParseReader (shallow form)", c.pos(pr))
+	}
+	want := map[string]string{
+		"Base.unextend":           `{ nd := len(b.Dirs) return func() { b.Dirs = b.Dirs[:nd] } }`,
+		"Object.unextend":         `{ base, nf, ni := t.Base.unextend(), len(t.fields.list), len(t.Interfaces) return func() { base() t.fields.truncate(nf) t.Interfaces = t.Interfaces[:ni] } }`,
+		"Interface.unextend":      `{ base, nf := t.Base.unextend(), len(t.fields.list) return func() { base() t.fields.truncate(nf) } }`,
+		"Input.unextend":          `{ base, nf := t.Base.unextend(), len(t.fields.list) return func() { base() t.fields.truncate(nf) } }`,
+		"Enum.unextend":           `{ base, nv := t.Base.unextend(), len(t.values.list) return func() { base() t.values.truncate(nv) } }`,
+		"Union.unextend":          `{ base, nm := t.Base.unextend(), len(t.Members) return func() { base() t.Members = t.Members[:nm] } }`,
+		"fieldList.truncate":      `{ for _, fd := range fl.list[n:] { delete(fl.dict, fd.Name()) } fl.list = fl.list[:n] }`,
+		"inputFieldList.truncate": `{ for _, fd := range il.list[n:] { delete(il.dict, fd.Name()) } il.list = il.list[:n] }`,
+		"enumValueList.truncate":  `{ for _, ev := range el.list[n:] { delete(el.dict, string(ev.Value)) } el.list = el.list[:n] }`,
+		// what each Extend appends to: exactly what the undo above restores
+		"Base.Extend":      `{ for _, du := range x.Directives() { for _, exist := range b.Dirs { if du.Directive.Name() == exist.Directive.Name() { return fmt.Errorf("%w: directive %s already exists on %s", ErrDuplicate, du.Directive.Name(), b.N) } } b.Dirs = append(b.Dirs, du) } return nil }`,
+		"Object.Extend":    `{ if ox, ok := x.(*Object); ok { for _, fd := range ox.fields.list { if err := t.fields.add(fd); err != nil { return fmt.Errorf("%w: on %s", err, t.N) } } for _, i := range ox.Interfaces { for _, exist := range t.Interfaces { if i.Name() == exist.Name() { return fmt.Errorf("%w: interface %s already exists on %s", ErrDuplicate, i.Name(), t.N) } } t.Interfaces = append(t.Interfaces, i) } } return t.Base.Extend(x) }`,
+		"Schema.Extend":    `{ if ox, ok := x.(*Schema); ok { for _, fd := range ox.fields.list { if err := t.fields.add(fd); err != nil { return fmt.Errorf("%w: on %s", err, t.N) } } } return t.Object.Base.Extend(x) }`,
+		"Interface.Extend": `{ if ix, ok := x.(*Interface); ok { for _, f := range ix.fields.list { if err := t.fields.add(f); err != nil { return fmt.Errorf("%w: on %s", err, t.N) } } } return t.Base.Extend(x) }`,
+		"Enum.Extend":      `{ if ex, ok := x.(*Enum); ok { for _, ev := range ex.values.list { if err := t.values.add(ev); err != nil { return fmt.Errorf("%w: enum value %s on %s", err, ev.Value, t.N) } } } return t.Base.Extend(x) }`,
+		"Union.Extend":     `{ if ux, ok := x.(*Union); ok { for _, m := range ux.Members { for _, exist := range t.Members { if m.Name() == exist.Name() { return fmt.Errorf("%w: union member %s already exists on %s", ErrDuplicate, m.Name(), t.N) } } t.Members = append(t.Members, m) } } return t.Base.Extend(x) }`,
+	}
+	for name, w := range want {
+		fd := c.funcs[name]
+		if fd == nil {
+			return unknown(name+" missing", "root.go")
+		}
+		if norm(fd.Body) != w {
+			return unknown(name+" body", c.pos(fd))
+		}
+	}
+	// Input.Extend is matched by inputExtendForm; every other Extend either fails or belongs to a kind above
+	for name, fd := range c.funcs {
+		if strings.HasSuffix(name, ".Extend") && want[name] == "" && name != "Input.Extend" {
+			if b := norm(fd.Body); !strings.HasPrefix(b, "{ return fmt.Errorf(") && b != "{ return nil }" {
+				return unknown(name+" is an Extend without an undo", c.pos(fd))
+			}
+		}
+	}
+	if strings.Contains(aes, "if u, ok := cur.(interface{ unextend() func() }); ok { undos = append(undos, u.unextend()) } if err = cur.Extend(x.Adds); err != nil { return }") &&
+		strings.Contains(aes, "var undos []func() undo = func() { for i := len(undos) - 1; 0 <= i; i-- { undos[i]() } }") &&
+		strings.Count(aes, ".Extend(") == 1 &&
+		strings.Contains(prs, "unextend := func() {} if err == nil { unextend, err = root.addExtends(extends...) } if err == nil { err = root.validate() } if err != nil { unextend() root.types = origTypes") {
+		return "false"
+	}
+	return unknown("addExtends/ParseReader undo wiring", c.pos(ae))
 }
